@@ -71,7 +71,7 @@ class C21(Prop):
     props_file = "Props/C21.v"
     preamble = ("From Coq Require Import List ZArith.\nImport ListNotations.\n"
                 "From PP Require Import Model.C21.\nOpen Scope Z_scope.\n")
-    n_cases = (70, 1200)
+    n_cases = (50, 600)
     design_ref = "DESIGN.md §5 C21"
     level_text = (
         "Coq theorems over an executable transcription of the six connectivity queries of "
@@ -147,23 +147,34 @@ class C21(Prop):
         if r < 0.85:
             nx, ny = rng.randint(2, m + 1), rng.randint(2, m + 1)
             fr = []
+            used = set()  # no two fractures on the same line (overlapping collinear input is invalid)
             for _ in range(rng.choice([1, 1, 2, 2, 3])):
                 if rng.random() < 0.5:
                     y = rng.randint(0, ny)  # may lie on the domain boundary
+                    if ("h", y) in used:
+                        continue
+                    used.add(("h", y))
                     a, b = sorted(rng.sample(range(0, nx + 1), 2))
                     fr.append([[a, b], [y, y]])
                 else:
                     x = rng.randint(0, nx)
+                    if ("v", x) in used:
+                        continue
+                    used.add(("v", x))
                     a, b = sorted(rng.sample(range(0, ny + 1), 2))
                     fr.append([[x, x], [a, b]])
             return {"kind": "md", "dims": [nx, ny], "fracs": fr, "pick": rng.randint(0, 7)}
         # 3-D host with 1-2 axis-aligned rectangular fractures
         nx, ny, nz = rng.randint(2, 3), rng.randint(2, 3), rng.randint(2, 3)
         fr = []
+        used = set()  # no two fractures in the same plane
         for _ in range(rng.choice([1, 2])):
             ax = rng.randint(0, 2)
             n = [nx, ny, nz]
             lev = rng.randint(1, n[ax] - 1)
+            if (ax, lev) in used:
+                continue
+            used.add((ax, lev))
             o = [i for i in range(3) if i != ax]
             a0, a1 = sorted(rng.sample(range(0, n[o[0]] + 1), 2))
             b0, b1 = sorted(rng.sample(range(0, n[o[1]] + 1), 2))
